@@ -101,6 +101,11 @@ let xstopped : BinNums.coq_N option ref = ref None
 let xseen = ref false
 (* the blocking waitpid (counted over the scenario) that a signal handler of the caller interrupts; 0 = none *)
 let intr_at = ref 0
+let big_k = ref 0
+let big_secs = ref 0
+let sleeps_seen = ref 0
+let intr_poll = ref 0
+let polls_seen = ref 0
 let blocking_waits = ref 0
 (* poll reported stdin writable, and the library polled again (or returned) without having written to it *)
 let pending_in = ref false
@@ -173,8 +178,21 @@ let serve_call (c : Comm.call) : Comm.result option =
     (match c with
      | Comm.KPoll _ -> if !read_deadline >= 0 && int_of_n w.CommK.now > !read_deadline then incr polls_after_deadline
      | _ -> ());
-    let ((res, w'), ch') = CommSim.serve fuel w c !choices in
+    (* a signal handler of the caller interrupts the k-th poll of the scenario (EINTR): the kernel model serves the poll
+       with a timeout of at most 3 ms; if nothing is ready by then the call fails with EINTR instead of going on waiting *)
+    let interrupt = (match c with
+        | Comm.KPoll (_, _, _, ms) ->
+          incr polls_seen;
+          !intr_poll > 0 && !polls_seen = !intr_poll && (int_of_z ms < 0 || int_of_z ms > 3)
+        | _ -> false) in
+    let kc = (match c with
+        | Comm.KPoll (a, b, d, _) when interrupt -> Comm.KPoll (a, b, d, z_of_int 3)
+        | _ -> c) in
+    let ((res0, w'), ch') = CommSim.serve fuel w kc !choices in
     world := Some w'; choices := ch';
+    let res = (match res0 with
+        | CommSim.SRes (Comm.RPoll (cnt, _, _, _)) when interrupt && int_of_n cnt = 0 -> CommSim.SRes (Comm.RErr (n_of_int 4))
+        | r -> r) in
     match res with
     | CommSim.SRes r ->
       (* the deadline of this read() is the first clock value it obtains plus the time limit *)
@@ -256,6 +274,11 @@ let serve_pcall (c : PopenSM.pcall) : PopenSM.presult option =
      | None -> diverge (Printf.sprintf "E1:PopenSM op#%d call#%d: real=%s model=<no call expected>" !opidx !op_calls (show_pcall c)));
     let dur = n_of_int ((next_choice () mod 50) * 1000) in
     let over = n_of_int (let k = next_choice () in if k mod 4 = 0 then (k mod 3000) * 1000 else 0) in
+    (* the caller is not scheduled for a long time: the k-th sleep of the scenario overshoots by big_secs seconds *)
+    let over = (match c with
+        | PopenSM.PSleep _ -> incr sleeps_seen;
+          if !big_k > 0 && !sleeps_seen = !big_k then n_of_int (!big_secs * 1000000000) else over
+        | _ -> over) in
     let t_before = int_of_n w.PopenSM.pnow in
     let xw0 = { JobCtl.xbase = w; JobCtl.xstopped = !xstopped; JobCtl.xseen = !xseen } in
     let interrupted = (match c with
@@ -302,8 +325,9 @@ let () =
        let toks = String.split_on_char ' ' line in
        match toks with
        | ["scn"; id] -> reset (); rp "scn %s\n" id; reply "ok"
-       | ["comm"; pi; po; pe; ci; co; ce] ->
+       | "comm" :: pi :: po :: pe :: ci :: co :: ce :: more ->
          let b s = s = "1" in
+         intr_poll := (match more with [k] -> int_of_string k | _ -> 0); polls_seen := 0;
          world := Some (CommK.init_world (b pi) (b po) (b pe) (nat_of_int (int_of_string ci)) (nat_of_int (int_of_string co))
                           (nat_of_int (int_of_string ce)) []);
          lcomm := Some { Comm.c_in = b pi; Comm.c_out = b po; Comm.c_err = b pe; Comm.c_input = [] };
@@ -323,7 +347,9 @@ let () =
          reply "ok"
        | "popen" :: ex :: raw :: reap :: dies :: more ->
          xstopped := None; xseen := false; blocking_waits := 0;
-         intr_at := (match more with [k] -> int_of_string k | _ -> 0);
+         intr_at := (match more with k :: _ -> int_of_string k | _ -> 0);
+         sleeps_seen := 0;
+         (match more with [_; bk; bs] -> big_k := int_of_string bk; big_secs := int_of_string bs | _ -> big_k := 0; big_secs := 0);
          pw := Some { PopenSM.pr = PopenSM.PAlive;
                       PopenSM.exit_at = (if ex = "never" then None else Some (n_of_int (int_of_string ex), n_of_int (int_of_string raw)));
                       PopenSM.reap_at = (if reap = "never" then None else Some (n_of_int (int_of_string reap)));
